@@ -13,6 +13,7 @@ import (
 	"net/netip"
 	"strings"
 	"testing"
+	"time"
 
 	"github.com/absfs/absnfs"
 	"pgregory.net/rapid"
@@ -281,3 +282,186 @@ func runC09(tb stat.TB, c c09Case) {
 var propC09 = defProp("C09", "TestC09", genC09, runC09)
 
 func TestC09(t *testing.T) { propC09.Test(t) }
+
+// ------------------------------------------------------------------ connection histories
+//
+// The same gate, judged per request on long-lived connections through the
+// connection loop while the allow-list and the Secure flag are replaced at
+// runtime: every request is judged against the list in force when it is sent.
+
+type c09Step struct {
+	Kind   string `json:"kind"` // open req update
+	Conn   int    `json:"conn"`
+	IP     string `json:"ip,omitempty"`
+	Port   int    `json:"port,omitempty"`
+	List   int    `json:"list"`
+	Secure bool   `json:"secure,omitempty"`
+	Via    string `json:"via,omitempty"` // policy export
+	Proc   uint32 `json:"proc,omitempty"`
+}
+
+type c09ConnCase struct {
+	Lists [][]string `json:"lists"`
+	Steps []c09Step  `json:"steps"`
+}
+
+func genC09Conn(t *rapid.T) c09ConnCase {
+	var c c09ConnCase
+	var pool []string
+	for i := 0; i < 3; i++ {
+		sub := genC09(t)
+		if i == 0 && len(sub.List) == 0 {
+			sub.List = []string{"10.1.0.0/16"}
+			pool = append(pool, "10.1.2.3", "10.2.0.1")
+		}
+		c.Lists = append(c.Lists, sub.List)
+		for _, p := range sub.Probes {
+			if a, err := netip.ParseAddr(p.IP); err == nil && a.Zone() == "" {
+				pool = append(pool, p.IP)
+			}
+		}
+	}
+	if len(pool) == 0 {
+		pool = []string{"10.1.2.3"}
+	}
+	n := rapid.IntRange(4, 24).Draw(t, "nsteps")
+	c.Steps = append(c.Steps, c09Step{Kind: "open", IP: rapid.SampledFrom(pool).Draw(t, "ip0"), Port: 700})
+	for i := 0; i < n; i++ {
+		st := c09Step{Kind: pick(t, "kind", "open", "req", "req", "req", "update")}
+		switch st.Kind {
+		case "open":
+			st.IP = rapid.SampledFrom(pool).Draw(t, "ip")
+			st.Port = pick(t, "port", 1, 700, 1023, 1024, 40000)
+		case "req":
+			st.Conn = rapid.IntRange(0, 7).Draw(t, "conn")
+			st.Proc = pick(t, "proc", uint32(nfsx.ProcGetattr), nfsx.ProcNull, nfsx.ProcLookup, nfsx.ProcFsinfo)
+		case "update":
+			st.List = rapid.IntRange(0, len(c.Lists)-1).Draw(t, "list")
+			st.Secure = rapid.IntRange(0, 3).Draw(t, "secure") == 0
+			st.Via = pick(t, "via", "policy", "export")
+		}
+		c.Steps = append(c.Steps, st)
+	}
+	return c
+}
+
+func runC09Conn(tb stat.TB, c c09ConnCase) {
+	const id, check = "C09", "TestC09Conn"
+	v := vfs.New()
+	v.SeedFile("/f", 0644, 0, 0, []byte("x"))
+	list, secure := c.Lists[0], false
+	s := newSession(tb, v, absnfs.ExportOptions{AttrCacheTimeout: 1, AttrCacheSize: 2})
+	defer s.close()
+	root := s.e.MustMount(tb) // mounted before any list is in force
+	if err := s.e.NFS.UpdatePolicyOptions(absnfs.PolicyOptions{AllowedIPs: list}); err != nil {
+		tb.Fatalf("harness: %v", err)
+	}
+	type conn struct {
+		pc   *drv.PipeConn
+		ip   string
+		port int
+		dead bool
+	}
+	var conns []*conn
+	defer func() {
+		for _, k := range conns {
+			k.pc.Close()
+		}
+	}()
+	v.SetRecording(true)
+	updatesUnderOpen, deniedAfterUpdate := 0, 0
+	for i, st := range c.Steps {
+		switch st.Kind {
+		case "open":
+			if len(conns) >= 8 {
+				continue
+			}
+			conns = append(conns, &conn{pc: s.e.Pipe(st.IP, st.Port), ip: st.IP, port: st.Port})
+		case "update":
+			nl := c.Lists[st.List]
+			var err error
+			if st.Via == "export" {
+				o := s.e.NFS.GetExportOptions()
+				o.AllowedIPs, o.Secure = nl, st.Secure
+				err = s.e.NFS.UpdateExportOptions(o)
+			} else {
+				err = s.e.NFS.UpdatePolicyOptions(absnfs.PolicyOptions{AllowedIPs: nl, Secure: st.Secure})
+			}
+			if err != nil {
+				tb.Fatalf("harness: update: %v", err)
+			}
+			list, secure = nl, st.Secure
+			if len(conns) > 0 {
+				updatesUnderOpen++
+			}
+		case "req":
+			if len(conns) == 0 {
+				continue
+			}
+			k := conns[st.Conn%len(conns)]
+			if k.dead {
+				continue
+			}
+			want, judged := oracleAllowed(k.ip, list)
+			if len(list) == 0 {
+				want, judged = true, true
+			}
+			args := nfsx.ArgsFh(root)
+			switch st.Proc {
+			case nfsx.ProcNull:
+				args = nil
+			case nfsx.ProcLookup:
+				args = nfsx.ArgsDirop(root, "f")
+			}
+			xid := s.e.NextXid()
+			v.ResetCalls()
+			if err := k.pc.Send(nfsx.Call(xid, nfsx.ProgNFS, 3, st.Proc, nfsx.AuthSys(1, "h", 0, 0, nil), nfsx.AuthNone(), args)); err != nil {
+				k.dead = true
+				continue
+			}
+			rec, err := k.pc.Recv(5 * time.Second)
+			if err != nil {
+				// the server may drop a refused client's connection instead of answering
+				k.dead = true
+				if n := v.NumCalls(); n > 0 && judged && !want {
+					if stat.Violate(tb, id, check, "rejected-client-reaches-backend", c, "step#%d request on the connection from %s:%d under list %q: no reply, but %d backend call(s), first %s", i, k.ip, k.port, list, n, v.Calls()[0]) {
+						return
+					}
+				}
+				continue
+			}
+			rp, perr := nfsx.ParseReply(rec)
+			if perr != nil || rp.Xid != xid {
+				stat.Discard(true)
+				return
+			}
+			what := fmt.Sprintf("step#%d proc %d on the connection opened from %s:%d, list in force %q secure=%v", i, st.Proc, k.ip, k.port, list, secure)
+			mustDeny := judged && !want || secure && k.port >= 1024
+			mustServe := judged && want && !(secure && k.port >= 1024)
+			if mustDeny {
+				if updatesUnderOpen > 0 {
+					deniedAfterUpdate++
+				}
+				if rp.Stat != nfsx.MsgDenied {
+					if stat.Violate(tb, id, check, "rejected-client-not-denied", c, "%s: reply_stat=%d, want MSG_DENIED", what, rp.Stat) {
+						return
+					}
+				}
+				if n := v.NumCalls(); n > 0 {
+					if stat.Violate(tb, id, check, "rejected-client-reaches-backend", c, "%s: %d backend call(s), first %s", what, n, v.Calls()[0]) {
+						return
+					}
+				}
+			} else if mustServe && rp.Stat == nfsx.MsgDenied {
+				if stat.Violate(tb, id, check, "admitted-client-denied", c, "%s: MSG_DENIED although the address is listed and the port rule is met", what) {
+					return
+				}
+			}
+		}
+	}
+	stat.Case(c, deniedAfterUpdate > 0, fmt.Sprintf("updates_under_open_conn_%v", updatesUnderOpen > 0))
+}
+
+var propC09Conn = defProp("C09", "TestC09Conn", genC09Conn, runC09Conn)
+
+func TestC09Conn(t *testing.T) { propC09Conn.Test(t) }
